@@ -214,6 +214,10 @@ def main(tier):
             body = If(((Cmp(Id(n), op, rhs), R()),), R())
             items.append(("vocabulary", relabel(Program("exp", body, "s", ("uid",))), "real", timeout_ms))
             items.append(("vocabulary", relabel(Program("exp", body, None, (n, "uid"))), "int", timeout_ms))
+    # shapes of the sizes around every integer constant the front end compares with (none on the pinned tree)
+    from vf.props import sizes as _sizes
+    for kind, p_ in fam.derived_size_programs(_sizes.frontend_sizes()):
+        items.append((kind, p_, "real", timeout_ms))
     results = common.pmap(check_program, items, chunksize=4)
 
     total = Tally()
